@@ -15,32 +15,6 @@ open SdnsVerif.Model.AutoTA SdnsVerif.Lemmas.AutoTA
 
 /-! ## durable records of a revocation -/
 
-/-- The disk bars material `m` from ever being trusted: its revocation is
-recorded in the tombstone file, or by a `StateRevoked`/`StateRemoved` marker in
-the state file — or the tombstone file is corrupt (then nothing is trusted). -/
-def Barred (d : Disk) (m : Nat) : Prop :=
-  d.tomb = .corrupt ∨ (∃ ms, d.tomb = .ok ms ∧ m ∈ ms) ∨
-  (∃ tas, d.state = .ok tas ∧ ∃ ta ∈ tas, ta.key.mat = m ∧ isMarker ta.st = true)
-
-/-- every marker of the state file is backed by the tombstone file. -/
-def MarkersCovered (d : Disk) : Prop :=
-  ∀ tas, d.state = .ok tas → ∀ ta ∈ tas, isMarker ta.st = true →
-    d.tomb = .corrupt ∨ ∃ ms, d.tomb = .ok ms ∧ ta.key.mat ∈ ms
-
-/-- Read assumptions of the `_partial` theorems: the tombstone file is never
-"unreadable" (exists, cannot be opened, not a decode error), and the state
-file is not lost (read fault / corruption) while it holds the only record of
-a revocation. Write faults, crashes, restarts, tombstone corruption and any
-fetched data are unrestricted. -/
-def EvOK (s : Sys) : Ev → Prop
-  | .run _ fl _ => fl.tombRead = false ∧ (fl.stateRead = true → MarkersCovered s.disk)
-  | .damage .state => MarkersCovered s.disk
-  | _ => True
-
-def HistOK (P : Params) (cfg : List Key) : Sys → List Ev → Prop
-  | _, [] => True
-  | s, e :: es => EvOK s e ∧ HistOK P cfg (step P cfg s e) es
-
 /-! ## one run -/
 
 /-- **Tombstone precedence (one run).** If the revocation of `m` is on record
@@ -49,11 +23,22 @@ live set the run leaves — whatever the configuration lists, whatever is
 fetched, whichever writes fail, whatever the key tags are. -/
 theorem run_excludes_barred (P : Params) (cfg : List Key) (d : Disk) (live : List Key)
     (f : Option Fetch) (fl : Faults) (now m : Nat)
-    (hb : Barred d m) (ht : fl.tombRead = false)
+    (hb : Barred d m) (ht : fl.tombRead = false ∨ P.unreadableEmpty = false)
     (hs : fl.stateRead = true → MarkersCovered d) :
     ∀ k ∈ (autoTA P cfg d live f fl now).live, k.mat ≠ m := by
+  by_cases hT : fl.tombRead = true
+  · -- only in the fail-closed variant: the run clears the trust set and aborts
+    have hfix : P.unreadableEmpty = false := by
+      rcases ht with h | h
+      · rw [hT] at h; cases h
+      · exact h
+    have hc : readTomb P d fl = .corrupt := by simp [readTomb, hT, hfix]
+    intro k hk
+    unfold autoTA at hk
+    simp [hc] at hk
+  have ht : fl.tombRead = false := by simpa using hT
   -- the in-memory tombstone set after migration contains m (or the store is corrupt)
-  have key : d.tomb = .corrupt ∨ ∃ tomb0, readTomb d fl = .ok tomb0 ∧ m ∈ migrate (readState d live fl now) tomb0 := by
+  have key : d.tomb = .corrupt ∨ ∃ tomb0, readTomb P d fl = .ok tomb0 ∧ m ∈ migrate (readState d live fl now) tomb0 := by
     rcases hb with hc | ⟨ms, hms, hm⟩ | ⟨tas, htas, ta, hta, hmat, hmark⟩
     · exact Or.inl hc
     · right
@@ -81,7 +66,7 @@ theorem run_excludes_barred (P : Params) (cfg : List Key) (d : Disk) (live : Lis
   intro k hk
   unfold autoTA at hk
   rcases key with hc | ⟨tomb0, hrt, hmig⟩
-  · have : readTomb d fl = .corrupt := by simp [readTomb, ht, hc]
+  · have : readTomb P d fl = .corrupt := by simp [readTomb, ht, hc]
     simp only [this] at hk
     cases hk
   · simp only [hrt] at hk
@@ -115,18 +100,25 @@ theorem run_excludes_barred (P : Params) (cfg : List Key) (d : Disk) (live : Lis
         simp only [hv] at hk
         exact finish_live_excl fl _ _ _ _ hlive1 (hproc _).2 k hk
 
-theorem barred_of_tomb {ms : List Nat} {m : Nat} (st : FileC (List TA)) (h : m ∈ ms) :
-    Barred { state := st, tomb := .ok ms } m := Or.inr (Or.inl ⟨ms, rfl, h⟩)
-
 /-- **Records are never lost (one run, any crash point).** After any prefix of
 the run's file replacements, a revocation that was on record is still on
 record: tombstones only grow, and a marker leaves the state file only in a
 replacement that comes after the tombstone replacement that carries it. -/
 theorem run_keeps_barred (P : Params) (cfg : List Key) (d : Disk) (live : List Key)
     (f : Option Fetch) (fl : Faults) (now m : Nat) (n : Nat)
-    (hb : Barred d m) (ht : fl.tombRead = false)
+    (hb : Barred d m) (ht : fl.tombRead = false ∨ P.unreadableEmpty = false)
     (hs : fl.stateRead = true → MarkersCovered d) :
     Barred (applyWrites d ((autoTA P cfg d live f fl now).writes.take n)) m := by
+  by_cases hT : fl.tombRead = true
+  · have hfix : P.unreadableEmpty = false := by
+      rcases ht with h | h
+      · rw [hT] at h; cases h
+      · exact h
+    have hc : readTomb P d fl = .corrupt := by simp [readTomb, hT, hfix]
+    have hw : (autoTA P cfg d live f fl now).writes = [] := by
+      unfold autoTA; simp [hc]
+    rw [hw]; simpa [applyWrites] using hb
+  have ht : fl.tombRead = false := by simpa using hT
   rcases autoTA_inv P cfg d live f fl now with ⟨hw, _, _, _⟩ | ⟨tomb0, f', a, hrt, rfl, _, _, heq⟩
   · rw [hw]; simpa [applyWrites] using hb
   · rw [heq, finish_writes]
@@ -179,7 +171,7 @@ theorem run_keeps_barred (P : Params) (cfg : List Key) (d : Disk) (live : List K
 /-! ## histories -/
 
 theorem step_keeps_barred (P : Params) (cfg : List Key) (s : Sys) (e : Ev) (m : Nat)
-    (hok : EvOK s e) (hb : Barred s.disk m) : Barred (step P cfg s e).disk m := by
+    (hok : EvOK P s e) (hb : Barred s.disk m) : Barred (step P cfg s e).disk m := by
   cases e with
   | tick dt => exact hb
   | restart => exact hb
@@ -202,15 +194,6 @@ theorem step_keeps_barred (P : Params) (cfg : List Key) (s : Sys) (e : Ev) (m : 
       rw [List.take_length] at this
       exact this
     | some k => exact run_keeps_barred P cfg s.disk (startLive cfg s) f fl s.now m k hb ht hs
-
-theorem histOK_append (P : Params) (cfg : List Key) (s : Sys) (e1 e2 : List Ev) :
-    HistOK P cfg s (e1 ++ e2) ↔ HistOK P cfg s e1 ∧ HistOK P cfg (runHist P cfg s e1) e2 := by
-  induction e1 generalizing s with
-  | nil => simp [HistOK, runHist]
-  | cons e rest ih =>
-    simp only [List.cons_append, HistOK, runHist, List.foldl_cons]
-    rw [ih]
-    simp [runHist, and_assoc]
 
 /-- **Revocation records are monotone along every history**: restarts, crashes
 after any prefix of the persistence steps, failures of either or both writes,
@@ -311,6 +294,18 @@ theorem corrupt_store_fail_closed (P : Params) (cfg : List Key) (d : Disk) (live
   unfold autoTA
   simp [readTomb, ht, hc]
 
+/-- **unreadable_store_fail_closed — only for the fail-closed variant of the
+tree** (`P.unreadableEmpty = false`, i.e. the error branch after
+`readTombstones` clears the trust set for every error). For the current tree
+(`unreadableEmpty = true`) the statement is false: see
+`unreadable_store_trusts_tombstoned_key`. -/
+theorem unreadable_store_fail_closed_partial (P : Params) (cfg : List Key) (d : Disk) (live : List Key)
+    (f : Option Fetch) (fl : Faults) (now : Nat)
+    (hfix : P.unreadableEmpty = false) (ht : fl.tombRead = true) :
+    (autoTA P cfg d live f fl now).live = [] ∧ (autoTA P cfg d live f fl now).writes = [] := by
+  unfold autoTA
+  simp [readTomb, ht, hfix]
+
 /-! ## unauthenticated responses -/
 
 /-- the trust anchors a run authenticates the fetched RRset with. -/
@@ -362,7 +357,7 @@ theorem unauthenticated_changes_nothing (P : Params) (cfg : List Key) (d : Disk)
     (autoTA P cfg d live none fl now).revoked = [] := by
   unfold anchors at h
   unfold autoTA at h ⊢
-  cases hrt : readTomb d fl with
+  cases hrt : readTomb P d fl with
   | corrupt => simp
   | ok tomb0 =>
     simp only [hrt] at h ⊢
@@ -372,12 +367,6 @@ theorem unauthenticated_changes_nothing (P : Params) (cfg : List Key) (d : Disk)
     simp [h]
 
 /-! ## revocation-only authentication -/
-
-/-- the fetched set carries the revocation of anchor `c`: the REVOKE form of
-`c` (same material, only the REVOKE bit differs) is in the set and validly
-self-signed it. -/
-def RevocationOf (f : Fetch) (c : Key) : Prop :=
-  ∃ k' ∈ f.keys, k'.revoke = true ∧ sameKeyExceptRevoke c k' = true ∧ signedBy f.signers k' = true
 
 /-- **revocation_only_restricted.** When a set is authenticated only by the
 self-signature of a revoked anchor (no non-revoked anchor signed it), the run
@@ -496,9 +485,6 @@ theorem revocation_only_restricted (P : Params) (cfg : List Key) (d : Disk) (liv
 
 /-! ## a key that merely disappears -/
 
-/-- the key tags `kskFetched` is indexed by. -/
-def fetchedTags (f : Fetch) : List Nat := (sortByTag (fetchedMap f.keys)).map (·.tag)
-
 /-- **missing_keeps_trust_90d_and_returns.** In a fully authenticated refresh
 whose outcome can be published (not both writes failed), an anchor on record
 (Valid or Missing) whose own revocation is not in the set
@@ -575,224 +561,6 @@ theorem missing_keeps_trust_90d_and_returns (P : Params) (cfg : List Key) (d : D
       exact ⟨ta', hin', hs2, hs4 hm⟩
 
 /-! ## the add hold-down over histories -/
-
-def thirtyDays : Nat := 30 * 86400
-
-/-- Specification-side bookkeeping (not part of the implementation): for every
-key, the start of its current streak of presence in fully authenticated
-refreshes whose outcome was recorded, and whether it has ever been present in
-a fully authenticated refresh with a streak older than 30 days. -/
-structure Ghost where
-  since : Key → Option Nat
-  earned : Key → Bool
-
-def Ghost.init : Ghost := { since := fun _ => none, earned := fun _ => false }
-
-def sinceAfter (g : Ghost) (f : Fetch) (now : Nat) : Key → Option Nat :=
-  fun k => if k ∈ f.keys then (match g.since k with | some t0 => some t0 | none => some now) else none
-
-def earnedAfter (g : Ghost) (f : Fetch) (now : Nat) : Key → Bool :=
-  fun k => g.earned k || (decide (k ∈ f.keys) &&
-    (match g.since k with | some t0 => decide (now - t0 > thirtyDays) | none => false))
-
-/-- Only refreshes authenticated by a trusted NON-revoked anchor count
-(`auth = full`). A key earns trust when it is in such a refresh and its streak
-started more than 30 days earlier; its streak continues when it is in the set,
-and is broken when the set omits it (recorded only if the state-file
-replacement landed: otherwise the implementation keeps no trace of the run). -/
-def ghostStep (P : Params) (cfg : List Key) (s : Sys) (g : Ghost) : Ev → Ghost
-  | .run (some f) fl crash =>
-    if (runResult P cfg s (some f) fl).auth = .full then
-      { earned := earnedAfter g f s.now,
-        since := if stateLanded fl crash then sinceAfter g f s.now else g.since }
-    else g
-  | _ => g
-
-def runHistG (P : Params) (cfg : List Key) : Sys × Ghost → List Ev → Sys × Ghost
-  | sg, [] => sg
-  | (s, g), e :: es => runHistG P cfg (step P cfg s e, ghostStep P cfg s g e) es
-
-/-- hypothesis of the `_partial` theorem: no fetched SEP key has the key tag
-of a different key that is pending in the state file. -/
-def NoPendCollision (s : Sys) : Ev → Prop
-  | .run (some f) _ _ => ∀ tas, s.disk.state = .ok tas → ∀ ta ∈ tas, ta.st = .addPend →
-      ∀ q ∈ f.keys, q.sep = true → q.tag = ta.key.tag → ta.key ∈ f.keys
-  | _ => True
-
-def HistNC (P : Params) (cfg : List Key) : Sys → List Ev → Prop
-  | _, [] => True
-  | s, e :: es => NoPendCollision s e ∧ HistNC P cfg (step P cfg s e) es
-
-def EntryOK (cfg : List Key) (g : Ghost) (ta : TA) : Prop :=
-  (ta.st = .addPend → ∃ t0, g.since ta.key = some t0 ∧ t0 ≤ ta.firstSeen) ∧
-  (isTrusted ta.st = true → ta.key ∈ cfg ∨ g.earned ta.key = true)
-
-/-- invariant tying the implementation state to the bookkeeping. -/
-structure HoldInv (cfg : List Key) (s : Sys) (g : Ghost) : Prop where
-  disk : ∀ tas, s.disk.state = .ok tas → ∀ ta ∈ tas, EntryOK cfg g ta
-  live : ∀ l, s.proc = some l → ∀ k ∈ l, k ∈ cfg ∨ g.earned k = true
-  clock : ∀ k t0, g.since k = some t0 → t0 ≤ s.now
-
-theorem earnedAfter_mono (g : Ghost) (f : Fetch) (now : Nat) (k : Key) (h : g.earned k = true) :
-    earnedAfter g f now k = true := by simp [earnedAfter, h]
-
-/-- the hold-down loop of a fully authenticated run, entry by entry. -/
-theorem holdStep_full (P : Params) (hP : thirtyDays ≤ P.addHold) (cfg : List Key) (g : Ghost) (f : Fetch)
-    (now : Nat) (hclock : ∀ k t0, g.since k = some t0 → t0 ≤ now) (ta ta' : TA)
-    (hnc : ta.st = .addPend → ta.key.tag ∈ fetchedTags f → ta.key ∈ f.keys)
-    (hpend : ta.st = .addPend → (∃ t0, g.since ta.key = some t0 ∧ t0 ≤ ta.firstSeen) ∨
-      (ta.firstSeen = now ∧ ta.key ∈ f.keys))
-    (htr : isTrusted ta.st = true → ta.key ∈ cfg ∨ g.earned ta.key = true)
-    (hs : holdStep P (fetchedTags f) now ta = some ta') :
-    (isTrusted ta'.st = true → ta'.key ∈ cfg ∨ earnedAfter g f now ta'.key = true) ∧
-    (ta'.st = .addPend → ∃ t0, sinceAfter g f now ta'.key = some t0 ∧ t0 ≤ ta'.firstSeen) := by
-  have lift : ta.key ∈ cfg ∨ g.earned ta.key = true → ta.key ∈ cfg ∨ earnedAfter g f now ta.key = true := by
-    rintro (h | h)
-    · exact Or.inl h
-    · exact Or.inr (earnedAfter_mono g f now _ h)
-  unfold holdStep at hs
-  by_cases hmem : (fetchedTags f).contains ta.key.tag = true
-  · have hm : ta.key.tag ∈ fetchedTags f := by simpa using hmem
-    simp only [hmem, Bool.not_true, Bool.false_eq_true, if_false, Option.some.injEq] at hs
-    cases hst : ta.st with
-    | addPend =>
-      have hin := hnc hst hm
-      by_cases hold : now - ta.firstSeen > P.addHold
-      · -- promoted: the streak is older than 30 days
-        simp [hst, hold] at hs
-        subst hs
-        refine ⟨fun _ => Or.inr ?_, by simp⟩
-        rcases hpend hst with ⟨t0, h1, h2⟩ | ⟨h1, _⟩
-        · simp only [earnedAfter, h1, hin, decide_true, Bool.true_and, Bool.or_eq_true, decide_eq_true_eq]
-          right
-          unfold thirtyDays at hP ⊢
-          omega
-        · rw [h1] at hold; omega
-      · simp [hst, hold] at hs
-        subst hs
-        refine ⟨by simp [hst, isTrusted], fun _ => ?_⟩
-        rcases hpend hst with ⟨t0, h1, h2⟩ | ⟨h1, _⟩
-        · exact ⟨t0, by simp [sinceAfter, hin, h1], h2⟩
-        · cases hsn : g.since ta.key with
-          | none => exact ⟨now, by simp [sinceAfter, hin, hsn], by omega⟩
-          | some t0 => exact ⟨t0, by simp [sinceAfter, hin, hsn], by have := hclock _ _ hsn; omega⟩
-    | valid =>
-      simp [hst] at hs; subst hs
-      exact ⟨fun _ => lift (htr (by simp [hst, isTrusted])), by simp [hst]⟩
-    | missing =>
-      simp [hst] at hs; subst hs
-      exact ⟨fun _ => lift (htr (by simp [hst, isTrusted])), by simp⟩
-    | start => simp [hst] at hs; subst hs; simp [hst, isTrusted]
-    | revoked => simp [hst] at hs; subst hs; simp [hst, isTrusted]
-    | removed => simp [hst] at hs; subst hs; simp [hst, isTrusted]
-  · have hmem' : (fetchedTags f).contains ta.key.tag = false := by simpa using hmem
-    simp only [hmem', Bool.not_false, if_true] at hs
-    cases hst : ta.st with
-    | addPend => simp [hst] at hs
-    | start => simp [hst] at hs
-    | valid =>
-      simp [hst] at hs; subst hs
-      exact ⟨fun _ => lift (htr (by simp [hst, isTrusted])), by simp⟩
-    | missing =>
-      simp only [hst] at hs
-      split at hs
-      · cases hs
-      · simp only [Option.some.injEq] at hs; subst hs
-        exact ⟨fun _ => lift (htr (by simp [hst, isTrusted])), by simp [hst]⟩
-    | revoked => simp [hst] at hs; subst hs; simp [hst, isTrusted]
-    | removed => simp [hst] at hs; subst hs; simp [hst, isTrusted]
-
-/-- revocation-only run: every entry still satisfies the invariant for the
-unchanged bookkeeping. -/
-theorem process_revOnly_entries (P : Params) (cfg : List Key) (g : Ghost) (f : Fetch) (now : Nat)
-    (cur : List TA) (tomb : List Nat) (h : ∀ ta ∈ cur, EntryOK cfg g ta) :
-    ∀ ta ∈ (process P f true now cur tomb).cur, EntryOK cfg g ta := by
-  unfold process
-  simp only [if_true]
-  apply foldl_procFetched_all
-  · exact h
-  · intro k _ old _ _ _ _ _
-    exact ⟨by simp, by simp [isTrusted]⟩
-  · intro k _ hf; cases hf
-
-/-- fully authenticated run: every entry at the end satisfies the invariant
-for the advanced bookkeeping. -/
-theorem process_full_entries (P : Params) (hP : thirtyDays ≤ P.addHold) (cfg : List Key) (g : Ghost)
-    (f : Fetch) (now : Nat) (hclock : ∀ k t0, g.since k = some t0 → t0 ≤ now)
-    (cur : List TA) (tomb : List Nat)
-    (h : ∀ ta ∈ cur, EntryOK cfg g ta ∧ (ta.st = .addPend → ta.key.tag ∈ fetchedTags f → ta.key ∈ f.keys)) :
-    ∀ ta' ∈ (process P f false now cur tomb).cur,
-      (isTrusted ta'.st = true → ta'.key ∈ cfg ∨ earnedAfter g f now ta'.key = true) ∧
-      (ta'.st = .addPend → ∃ t0, sinceAfter g f now ta'.key = some t0 ∧ t0 ≤ ta'.firstSeen) := by
-  -- after the fetched-key loop
-  have hloop : ∀ ta ∈ ((sortByTag (fetchedMap f.keys)).foldl
-      (procFetched (stage cur tomb f.signers (sortByTag (fetchedMap f.keys))) false now)
-      { cur := cur, tomb := tomb }).cur,
-      (ta.st = .addPend → ta.key.tag ∈ fetchedTags f → ta.key ∈ f.keys) ∧
-      (ta.st = .addPend → (∃ t0, g.since ta.key = some t0 ∧ t0 ≤ ta.firstSeen) ∨
-        (ta.firstSeen = now ∧ ta.key ∈ f.keys)) ∧
-      (isTrusted ta.st = true → ta.key ∈ cfg ∨ g.earned ta.key = true) := by
-    apply foldl_procFetched_all
-    · intro ta hta
-      obtain ⟨⟨h1, h2⟩, h3⟩ := h ta hta
-      exact ⟨h3, fun hst => Or.inl (h1 hst), h2⟩
-    · intro k _ old _ _ _ _ _
-      exact ⟨by simp, by simp, by simp [isTrusted]⟩
-    · intro k hk _ _
-      have hin : k ∈ f.keys := (mem_fetchedMap k _ ((mem_sortByTag k _).mp hk)).1
-      exact ⟨fun _ _ => hin, fun _ => Or.inr ⟨rfl, hin⟩, by simp [isTrusted]⟩
-  intro ta' hta'
-  have hproc : (process P f false now cur tomb).cur = holdDown P (fetchedTags f) now
-      ((sortByTag (fetchedMap f.keys)).foldl
-        (procFetched (stage cur tomb f.signers (sortByTag (fetchedMap f.keys))) false now)
-        { cur := cur, tomb := tomb }).cur := by
-    unfold process fetchedTags; simp
-  rw [hproc] at hta'
-  unfold holdDown at hta'
-  obtain ⟨ta, hta, hs⟩ := List.mem_filterMap.mp hta'
-  obtain ⟨h1, h2, h3⟩ := hloop ta hta
-  exact holdStep_full P hP cfg g f now hclock ta ta' h1 h2 h3 hs
-
-/-- entries of the prepared `kskCurrent`: they satisfy the invariant, and a
-pending one was read from the state file. -/
-theorem prepared_entries (cfg : List Key) (g : Ghost) (d : Disk) (live : List Key)
-    (fl : Faults) (now : Nat) (tomb0 : List Nat)
-    (hlive : ∀ k ∈ live, k ∈ cfg ∨ g.earned k = true)
-    (hdisk : ∀ tas, d.state = .ok tas → ∀ ta ∈ tas, EntryOK cfg g ta) :
-    ∀ ta ∈ (prepare cfg (readState d live fl now) tomb0 now).1,
-      EntryOK cfg g ta ∧ (ta.st = .addPend → ∃ tas, d.state = .ok tas ∧ ta ∈ tas) := by
-  intro ta hta
-  have seeded : ta ∈ seedFromLive live now →
-      EntryOK cfg g ta ∧ (ta.st = .addPend → ∃ tas, d.state = .ok tas ∧ ta ∈ tas) := by
-    intro h
-    obtain ⟨h1, h2⟩ := seedFromLive_mem live now ta h
-    rcases h2 with h2 | h2
-    · exact ⟨⟨by simp [h2], fun _ => hlive _ h1⟩, by simp [h2]⟩
-    · exact ⟨⟨by simp [h2], by simp [h2, isTrusted]⟩, by simp [h2]⟩
-  rcases prepare_mem cfg _ tomb0 now ta hta with h | ⟨h1, h2⟩
-  · unfold readState at h
-    split at h
-    · exact seeded h
-    · split at h
-      · next tas htas => exact ⟨hdisk tas htas ta h, fun _ => ⟨tas, htas, h⟩⟩
-      · exact seeded h
-  · exact ⟨⟨by simp [h2], fun _ => Or.inl h1⟩, by simp [h2]⟩
-
-theorem none_live_ok (P : Params) (cfg : List Key) (g : Ghost) (d : Disk) (live : List Key)
-    (fl : Faults) (now : Nat)
-    (hlive : ∀ k ∈ live, k ∈ cfg ∨ g.earned k = true)
-    (hdisk : ∀ tas, d.state = .ok tas → ∀ ta ∈ tas, EntryOK cfg g ta) :
-    ∀ k ∈ (autoTA P cfg d live none fl now).live, k ∈ cfg ∨ g.earned k = true := by
-  cases hrt : readTomb d fl with
-  | corrupt => unfold autoTA; simp [hrt]
-  | ok tomb0 =>
-    rw [autoTA_none P cfg d live fl now tomb0 hrt]
-    simp only
-    intro k hk
-    split at hk
-    · obtain ⟨ta, hta, rfl, htr⟩ := candidate_mem _ k hk
-      exact ((prepared_entries cfg g d live fl now tomb0 hlive hdisk ta hta).1).2 htr
-    · exact hlive k hk
 
 /-- the invariant is preserved by every event (given no pending-tag collision). -/
 theorem step_holdInv (P : Params) (hP : thirtyDays ≤ P.addHold) (cfg : List Key) (s : Sys) (g : Ghost)
@@ -943,12 +711,6 @@ theorem step_holdInv (P : Params) (hP : thirtyDays ≤ P.addHold) (cfg : List Ke
             · cases hk
           · exact hinv.clock k t0 hk
 
-theorem runHistG_fst (P : Params) (cfg : List Key) (s : Sys) (g : Ghost) (evs : List Ev) :
-    (runHistG P cfg (s, g) evs).1 = runHist P cfg s evs := by
-  induction evs generalizing s g with
-  | nil => rfl
-  | cons e rest ih => simp only [runHistG, runHist, List.foldl_cons]; exact ih _ _
-
 theorem holdInv_hist (P : Params) (hP : thirtyDays ≤ P.addHold) (cfg : List Key) (s : Sys) (g : Ghost)
     (evs : List Ev) (hinv : HoldInv cfg s g) (hnc : HistNC P cfg s evs) :
     HoldInv cfg (runHistG P cfg (s, g) evs).1 (runHistG P cfg (s, g) evs).2 := by
@@ -987,7 +749,8 @@ theorem new_key_needs_holddown_partial (P : Params) (hP : thirtyDays ≤ P.addHo
 extracted from its AST on every run). -/
 def treeParams : Params :=
   { addHold := SdnsVerif.Gen.C09.add_holddown_hours * 3600,
-    remHold := SdnsVerif.Gen.C09.missing_holddown_hours * 3600 }
+    remHold := SdnsVerif.Gen.C09.missing_holddown_hours * 3600,
+    unreadableEmpty := SdnsVerif.Gen.C09.shape_unreadable_tombstones_use_empty_map }
 
 /-- the add hold-down of the tree is at least 30 days and is measured from
 `FirstSeen` (the instant the key was first seen, never refreshed while pending). -/
@@ -1002,12 +765,16 @@ theorem tree_missing_holddown_at_least_90d :
 /-- statement order of the persistence tail in the tree is the one the model
 has: tombstones are written before the state file, markers are deleted only in
 the branch where the tombstone write succeeded, the corrupt-store and the
-both-writes-failed branches clear the trust set, and the pre-fetch publication
+both-writes-failed branches clear the trust set, an unreadable store is handled
+in exactly one of the two modelled ways (empty map: current tree; clear and
+abort: fail-closed variant — `treeParams.unreadableEmpty` follows the tree), and the pre-fetch publication
 is gated on the prior trust set; the two records live in two distinct files. -/
 theorem tree_persistence_shape :
     SdnsVerif.Gen.C09.shape_tomb_write_before_state_write = true ∧
     SdnsVerif.Gen.C09.shape_markers_dropped_only_after_tomb_ok = true ∧
     SdnsVerif.Gen.C09.shape_corrupt_tombstones_clear_trust = true ∧
+    (SdnsVerif.Gen.C09.shape_unreadable_tombstones_use_empty_map ≠
+      SdnsVerif.Gen.C09.shape_unreadable_tombstones_clear_trust) ∧
     SdnsVerif.Gen.C09.shape_both_writes_failed_clears_trust = true ∧
     SdnsVerif.Gen.C09.shape_prefetch_publish_gated_on_prior = true ∧
     SdnsVerif.Gen.C09.state_file ≠ SdnsVerif.Gen.C09.tombstone_file := by decide
@@ -1115,7 +882,7 @@ example : ∀ k ∈ [kB], k.mat ≠ 1 :=
     (runHist {} [kA, kB] {} [.run (some revokeA) {} none]) [.restart]
     (some { keys := [kA, kB], signers := [kA, kB] }) {} 1
     (Or.inr (Or.inl ⟨[1], by decide, by decide⟩))
-    ⟨trivial, ⟨rfl, by intro h; cases h⟩, trivial⟩ [kB] (by decide)
+    ⟨trivial, ⟨Or.inl rfl, by intro h; cases h⟩, trivial⟩ [kB] (by decide)
 
 -- ... and across a crash between the two writes of the revoking run (tombstone landed,
 -- state file still lists kA as Valid), then a restart: kA is not published.
@@ -1125,7 +892,7 @@ example : ∀ k ∈ [kB], k.mat ≠ 1 :=
                              .run (some revokeA) {} (some 1)]) []
     none {} 1
     (Or.inr (Or.inl ⟨[1], by decide, by decide⟩))
-    ⟨⟨rfl, by intro h; cases h⟩, trivial⟩ [kB] (by decide)
+    ⟨⟨Or.inl rfl, by intro h; cases h⟩, trivial⟩ [kB] (by decide)
 
 -- both_writes_fail_closed: the revoking run with both writes failing
 example : (autoTA {} [kA, kB] {} [kA, kB] (some revokeA) { tombWrite := true, stateWrite := true } 0).live = [] :=
